@@ -50,6 +50,25 @@ pub struct Case {
     /// written in the program, which must be equal in every sense (`ty`/`vals` are unused then)
     #[serde(default)]
     pub provenance: Vec<usize>,
+    /// binary operators are applied through unannotated generic functions (`zzgdiv :: fn a, b -> * do a / b end`) that the
+    /// program uses at several types
+    #[serde(default)]
+    pub generic_ops: bool,
+}
+
+fn generic_name(sym: &str) -> &'static str {
+    match sym {
+        "+" => "zzgadd",
+        "-" => "zzgsub",
+        "*" => "zzgmul",
+        "/" => "zzgdiv",
+        "==" => "zzgeq",
+        "!=" => "zzgne",
+        "<" => "zzglt",
+        ">" => "zzggt",
+        "<=" => "zzgle",
+        _ => "zzgge",
+    }
 }
 
 /// (id, setup lines, library-made expression, source-written expression, a different value of the same type)
@@ -283,12 +302,14 @@ impl Case {
                     }
                 }
                 let a = self.operand(op.i);
+                let quotient = if self.generic_ops { format!("zzgdiv({}, {})", a, d) } else { format!("{} / {}", a, d) };
                 if matches!(self.vals[op.i], Val::Tuple(ref vs) if !vs.is_empty()) {
-                    format!("{} / {} - {}", a, d, rebuilt(&a, &self.vals[op.i], &d))
+                    format!("{} - {}", quotient, rebuilt(&a, &self.vals[op.i], &d))
                 } else {
-                    format!("{} / {}", a, d)
+                    quotient
                 }
             }
+            k if self.generic_ops => format!("{}({}, {})", generic_name(k.sym()), self.operand(op.i), self.operand(op.j)),
             k => format!("{} {} {}", self.operand(op.i), k.sym(), self.operand(op.j)),
         }
     }
@@ -296,6 +317,11 @@ impl Case {
     /// the program and, per operator application, its 1-based source line
     fn render(&self, ops: &[Op]) -> (String, Vec<usize>) {
         let mut lines: Vec<String> = Vec::new();
+        if self.generic_ops {
+            for sym in ["+", "-", "*", "/", "==", "!=", "<", ">", "<=", ">="] {
+                lines.push(format!("{} :: fn a, b -> * do a {} b end", generic_name(sym), sym));
+            }
+        }
         let mut d = Vec::new();
         decls(&self.ty, &mut d);
         for s in d {
@@ -512,7 +538,7 @@ impl Check for C19 {
             let n = 1 + t.below(3);
             let provenance: Vec<usize> = (0..n).map(|_| t.below(PROVENANCE.len())).collect();
             let source = provenance_source(&provenance);
-            return Some(Case { ty: Ty::Int, vals: vec![Val::Int(0)], divisor: Val::Int(2), annotate: false, global: false, inline: false, source, provenance });
+            return Some(Case { ty: Ty::Int, vals: vec![Val::Int(0)], divisor: Val::Int(2), annotate: false, global: false, inline: false, source, provenance, generic_ops: false });
         }
         let profile = [Profile::Any, Profile::Ord, Profile::Arith][t.weighted(&[36, 32, 32])];
         let depth = 1 + t.weighted(&[30, 45, 25]);
@@ -536,7 +562,8 @@ impl Check for C19 {
         let annotate = g.t.chance(1, 3);
         let global = g.t.chance(1, 5);
         let inline = g.t.chance(1, 6);
-        Some(Case { ty, vals, divisor, annotate, global, inline, source: String::new(), provenance: Vec::new() }.with_source())
+        let generic_ops = g.t.chance(1, 5);
+        Some(Case { ty, vals, divisor, annotate, global, inline, source: String::new(), provenance: Vec::new(), generic_ops }.with_source())
     }
 
     fn evaluate(&self, case: &Case, labels: &mut Labels) -> Verdict {
@@ -545,6 +572,9 @@ impl Check for C19 {
         }
         if !case.well_formed() {
             return Verdict::Discard("malformed-case".into());
+        }
+        if case.generic_ops {
+            labels.add("operators-through-generic-functions");
         }
         let pr = probes();
         let kind = case.ty.kind();
@@ -651,6 +681,24 @@ impl Check for C19 {
                     };
                 }
                 let e = &errors[0];
+                if case.generic_ops {
+                    // the same operator applications written directly: when those are accepted, going through a generic
+                    // function must not get them rejected
+                    let mut direct = case.clone();
+                    direct.generic_ops = false;
+                    let (dsrc, _) = direct.render(&ops);
+                    if let Outcome::Accepted(_) = compile(&Project::single(dsrc.clone())) {
+                        return Verdict::Violation {
+                            signature: "C19/rejected-through-generic-function".into(),
+                            detail: format!(
+                                "the operator applications of this program are accepted when written directly and rejected when they go through unannotated generic functions: {}\n--- through generic functions ---\n{}\n--- direct ---\n{}",
+                                out.short(),
+                                src,
+                                dsrc
+                            ),
+                        };
+                    }
+                }
                 if let Some(p) = at.iter().position(|l| *l == e.line) {
                     labels.add(format!("operator-not-admitted:{}:{}", ops[p].k.sym(), kind));
                     if let Ok(d) = std::env::var("C19_SAVE_REJECTED") {
@@ -957,7 +1005,7 @@ fn admitted_matrix() -> (serde_json::Value, Vec<String>, Vec<String>) {
     let mut mismatches = Vec::new();
     let mut not_admitted = Vec::new();
     for (name, ty, x, y) in classes {
-        let case = Case { ty: ty.clone(), vals: vec![x.clone(), y.clone()], divisor: Val::Int(2), annotate: true, global: false, inline: false, source: String::new(), provenance: Vec::new() };
+        let case = Case { ty: ty.clone(), vals: vec![x.clone(), y.clone()], divisor: Val::Int(2), annotate: true, global: false, inline: false, source: String::new(), provenance: Vec::new(), generic_ops: false };
         let predicted = case.ops(pr);
         let mut row = serde_json::Map::new();
         for k in all {
